@@ -923,6 +923,7 @@ func reportAll(s *core.Shard, sc *scenario, vs []verdict) {
 func run(s *core.Shard) {
 	runSymlinks(s, 7, "")
 	runComposed(s, 3, "")
+	runNonPaths(s, 2)
 	combos := allCombos()
 	r := s.Rand("scenarios")
 	r.Shuffle(len(combos), func(i, j int) { combos[i], combos[j] = combos[j], combos[i] })
